@@ -58,8 +58,33 @@ Definition cs_check (i : cs_in) : option bool :=
         then Some (match cs_pos_rank i with Some 1%nat => true | _ => false end) else None
     | _ => None
     end.
-Inductive cs_case := CCs (i : cs_in) (observed : option bool).
+(* ---- the run-time cache (C19:cos_sin_cache:cache-shorter-than-sequence).  ids = all position ids fed, S = sequence length.
+   [len_guard] = false: as read at bbeff32 -- ReduceMax(position_ids) + 1 rows; true: the fix (ready/C19_05) -- max(that, S). *)
+Definition cache_rows (len_guard : bool) (ids : list nat) (S : nat) : nat :=
+  let m := list_max ids + 1 in if len_guard then Nat.max m S else m.
+(* com.microsoft.RotaryEmbedding: every id must index a cache row, and the cache must have at least sequence_length rows
+   (otherwise the kernel reports "Updating cos_cache and sin_cache in RotaryEmbedding is not currently supported") *)
+Definition rotary_cache_ok (rows : nat) (ids : list nat) (S : nat) : bool :=
+  (S <=? rows) && forallb (fun p => p <? rows) ids.
+
+(* ---- position_ids batch (known finding C19:cos_sin_cache:position-ids-batch-broadcast, NOT repaired).
+   position ids as a list of batch rows (length 1 or B).  The pattern's MatMul/Mul broadcast a single row over the batch;
+   the operator reads row b of position_ids (shape (batch_size, sequence_length) required) -- None = out of range = rejected. *)
+Definition cs_pattern_row (ids : list (list nat)) (b : nat) : option (list nat) :=
+  nth_error ids (if Nat.eqb (length ids) 1 then 0 else b).
+Definition cs_fused_row (ids : list (list nat)) (b : nat) : option (list nat) := nth_error ids b.
+(* executable decider used by the harness: does the fused graph differ from (fail where) the pattern (ran)? *)
+Definition cs_batch_differs (pos_batch x_batch : nat) : bool := negb (Nat.eqb pos_batch x_batch).
+
+Inductive cs_case :=
+  | CCs (i : cs_in) (observed : option bool)
+  | CCache (len_guard : bool) (ids : list nat) (S : nat) (observed_rows : nat)
+  | CBatch (pos_batch x_batch : nat) (observed_differs : bool).
 Definition cs_agrees (c : cs_case) : bool :=
-  match c with CCs i obs => match cs_check i, obs with Some a, Some b => Bool.eqb a b | None, None => true | _, _ => false end end.
+  match c with
+  | CCs i obs => match cs_check i, obs with Some a, Some b => Bool.eqb a b | None, None => true | _, _ => false end
+  | CCache g ids n rows => Nat.eqb (cache_rows g ids n) rows
+  | CBatch pb xb obs => Bool.eqb (cs_batch_differs pb xb) obs
+  end.
 Fixpoint cs_disagreeing (k : nat) (cs : list cs_case) : list nat :=
   match cs with [] => [] | c :: t => (if cs_agrees c then [] else [k]) ++ cs_disagreeing (S k) t end.
